@@ -1,4 +1,5 @@
 import Sm9.Proofs.Decoders
+import Sm9.Proofs.DecodersG2
 /-!
 # C08 — Point decoders are total, strict and build-profile independent
 
@@ -62,6 +63,32 @@ theorem g2_from_compressed_sound (bs : List UInt8) (P : G2) (h : Api.g2FromCompr
 theorem g2_from_compressed_reencode_partial (bs : List UInt8) (P : G2)
     (h : Api.g2FromCompressed bs = .ok P) (hre : P.y.c0 ≠ 0) : Api.g2ToCompressed P = .ok bs :=
   Sm9.g2_from_compressed_reencode_partial bs P h hre
+/-- **which strings `G2::from_compressed` accepts** — no side condition: exactly `b ‖ enc x` with `b ∈ {02, 03}` and
+    `x` the abscissa of a point of the twist in the order-r subgroup -/
+theorem g2_from_compressed_accepts_iff (bs : List UInt8) :
+    (∃ P, Api.g2FromCompressed bs = .ok P) ↔
+      ∃ (b : UInt8) (x y : Fq2), (b.toNat = 2 ∨ b.toNat = 3) ∧ bs = b :: Api.fq2ToSlice x ∧
+        y * y = x * x * x + b2 ∧ r • G2.toAff { x := x, y := y, z := 1 } = 0 := Sm9.g2_from_compressed_accepts_iff bs
+/-- completeness: for a subgroup point `(x, y)` of the twist both prefixes decode, to `(x, ±y)` -/
+theorem g2_from_compressed_complete (x y : Fq2) (h : y * y = x * x * x + b2)
+    (hsub : r • G2.toAff { x := x, y := y, z := 1 } = 0) (b : UInt8) (hb : b.toNat = 2 ∨ b.toNat = 3) :
+    ∃ P : G2, Api.g2FromCompressed (b :: Api.fq2ToSlice x) = .ok P ∧ P.x = x ∧ (P.y = y ∨ P.y = -y) ∧ P.z = 1 :=
+  Sm9.g2_from_compressed_complete x y h hsub b hb
+/-- the exact characterisation of `Ok(P)` for compressed G2, **partial**: for results with Re y ≠ 0 -/
+theorem g2_from_compressed_iff_partial (bs : List UInt8) (P : G2) (hre : P.y.c0 ≠ 0) :
+    Api.g2FromCompressed bs = .ok P ↔
+      ∃ x y : Fq2, y * y = x * x * x + b2 ∧ r • G2.toAff { x := x, y := y, z := 1 } = 0 ∧
+        bs = compByte (Api.fq2IsEven y) :: Api.fq2ToSlice x ∧ P = { x := x, y := y, z := 1 } :=
+  Sm9.g2_from_compressed_iff_partial bs P hre
+/-- **every G2 decoder is total and funnels**: any byte string gives `Ok` of a point in normal form on the twist and in
+    the order-r subgroup, or an `Err` (the result type `Except CurveError G2` has no panic outcome) — C09's decoder clause -/
+theorem g2_decoders_total_and_funnel (bs : List UInt8) :
+    ((∃ P, Api.g2FromSlice bs = .ok P ∧ P.z = 1 ∧ P.y * P.y = P.x * P.x * P.x + b2 ∧ r • G2.toAff P = 0) ∨
+      ∃ e, Api.g2FromSlice bs = .error e) ∧
+    ((∃ P, Api.g2FromUncompressed bs = .ok P ∧ P.z = 1 ∧ P.y * P.y = P.x * P.x * P.x + b2 ∧ r • G2.toAff P = 0) ∨
+      ∃ e, Api.g2FromUncompressed bs = .error e) ∧
+    ((∃ P, Api.g2FromCompressed bs = .ok P ∧ P.z = 1 ∧ P.y * P.y = P.x * P.x * P.x + b2 ∧ r • G2.toAff P = 0) ∨
+      ∃ e, Api.g2FromCompressed bs = .error e) := Sm9.g2_decoders_total bs
 /-- strict coordinates: the strict field decoder accepts exactly the 32-byte strings below q -/
 theorem coordinate_strict (bs : List UInt8) (x : Fq) :
     Api.fqFromSliceStrict bs = some x ↔ bs.length = 32 ∧ beVal bs = x.val := Api.fqFromSliceStrict_iff bs x
